@@ -48,10 +48,13 @@ type ReRequest struct {
 func (r *Reasm) Packet(f *Frame) (done *Delivered, undefined bool) {
 	n, k := int(f.Sum), int(f.No)
 	t := r.Open[f.ID]
+	if n < 1 {
+		return nil, true // fragment bit with an announced total of 0: outside the property (totals N >= 1)
+	}
 	if k == 1 {
-		if t != nil {
-			return nil, true // a second packet 1 while a transfer is open: not defined by the property
-		}
+		// a packet 1 while a transfer of this ID is open: the terminal abandoned that message and starts a new one, which
+		// C05/C14 cover like any other ("a message sent as N sub-packages with packet 1 first"); the old, incomplete set
+		// is never delivered. (A re-sent identical packet 1 is indistinguishable from this and has the same outcome.)
 		t = &Transfer{Total: n, Slots: map[int][]byte{}, FirstSerial: f.Serial, Began: r.Now}
 		r.Open[f.ID] = t
 	}
